@@ -491,3 +491,72 @@ def edited_externals(ctx, rng, n: int) -> Iterator[Tuple[str, Callable]]:
             return h.to_proto(m)
 
         yield f"design written against the ports of external module #{k} before its port list was edited", thunk_old
+
+
+def edited_fields(ctx, rng, n: int) -> Iterator[Tuple[str, Callable]]:
+    """States the constructors refuse, reached through plain fields afterwards - before anything was elaborated: external modules
+    whose ports repeat a name (appended, assigned, re-named), whose domain / name became a reserved or empty one; Signals given a
+    non-positive width, or added again after their visibility changed.  Refused, or exported as a well-formed package."""
+    import hdl21 as h
+
+    def ext(kind):
+        def thunk():
+            em = h.ExternalModule(name=f"Fld{next(_uid)}", domain="hvfld", port_list=[h.Input(name="a"), h.Output(name="b")], paramtype=h.HasNoParams)
+            if kind == "append-repeat":
+                em.port_list.append(h.Port(name="a"))
+            elif kind == "assign-repeat":
+                em.port_list = [h.Port(name="a"), h.Port(name="a")]
+            elif kind == "rename-repeat":
+                em.port_list[1].name = "a"
+            elif kind == "reserved-domain":
+                em.domain, em.name = "vlsir.primitives", "resistor"
+            elif kind == "ideal-domain":
+                em.domain = "hdl21.ideal"
+            elif kind == "empty-name":
+                em.name = ""
+            elif kind == "unnamed-port":
+                em.port_list[0].name = ""
+            elif kind == "internal-port":
+                em.port_list[0].vis = h.signal.Visibility.INTERNAL
+            m = h.Module(name=f"FldTop{next(_uid)}")
+            conns = {}
+            for p_ in em.port_list:
+                if p_.name and p_.name not in conns:
+                    conns[p_.name] = m.add(h.Signal(width=p_.width), name=f"n_{p_.name}")
+            m.add(em()(**conns), name="x")
+            return h.to_proto(m)
+        return thunk
+
+    def sig(kind):
+        def thunk():
+            child = h.Module(name=f"FldCh{next(_uid)}")
+            child.p = h.Port()
+            child.q = h.Signal()
+            child.r = h.R(r=1)(p=child.p, n=child.q)
+            top = h.Module(name=f"FldTop{next(_uid)}")
+            top.s = h.Signal()
+            top.t = h.Signal(width=2)
+            top.i = child(p=top.s)
+            top.r2 = h.R(r=1)(p=top.t[0], n=top.t[1])
+            if kind == "zero-width":
+                child.p.width = 0
+                top.s.width = 0
+            elif kind == "negative-width":
+                top.t.width = -2
+            elif kind == "string-width":
+                top.s.width = "1"
+            elif kind == "bool-width":
+                top.s.width = True
+            elif kind == "readd-as-port":
+                child.q.vis = h.signal.Visibility.PORT
+                child.q = child.q
+            elif kind == "readd-as-signal":
+                child.p.vis = h.signal.Visibility.INTERNAL
+                child.add(child.p)
+            return h.to_proto(top)
+        return thunk
+
+    for kind in ("append-repeat", "assign-repeat", "rename-repeat", "reserved-domain", "ideal-domain", "empty-name", "unnamed-port", "internal-port"):
+        yield f"external module edited after construction: {kind}", ext(kind)
+    for kind in ("zero-width", "negative-width", "string-width", "bool-width", "readd-as-port", "readd-as-signal"):
+        yield f"signal edited after construction: {kind}", sig(kind)
